@@ -694,7 +694,7 @@ impl HashColumn {
 		key: &Key,
 		address: Address,
 		index: &IndexTable,
-		log: &LogWriter,
+		log: &impl LogQuery,
 	) -> Result<bool> {
 		Ok(Self::find_partial_key_with_address(key, address, index, log)?.is_some())
 	}
@@ -703,7 +703,7 @@ impl HashColumn {
 		key: &Key,
 		address: Address,
 		index: &IndexTable,
-		log: &LogWriter,
+		log: &impl LogQuery,
 	) -> Result<Option<usize>> {
 		let (mut existing_entry, mut sub_index) = index.get(key, 0, log)?;
 		while !existing_entry.is_empty() {
@@ -1618,7 +1618,38 @@ impl HashColumn {
 		start_chunk: u64,
 	) -> Result<()> {
 		let tables = self.tables.read();
-		let source = &tables.index;
+		// While the index grows a key may still be in a queued older table only. The tables are
+		// walked from the oldest to the current one; an entry that an older table holds as well
+		// was reported from there.
+		let reindex = self.reindex.read();
+		let mut sources: Vec<&IndexTable> = reindex
+			.queue
+			.iter()
+			.filter_map(|e| match e {
+				ReindexEntry::Index(table) => Some(table),
+				ReindexEntry::RefCount(_) => None,
+			})
+			.collect();
+		sources.push(&tables.index);
+		for (generation, source) in sources.iter().enumerate() {
+			let start_chunk = if generation + 1 == sources.len() { start_chunk } else { 0 };
+			let older = &sources[..generation];
+			if !self.iter_index_table(log, &mut f, &tables, source, older, start_chunk)? {
+				break
+			}
+		}
+		Ok(())
+	}
+
+	fn iter_index_table(
+		&self,
+		log: &Log,
+		f: &mut impl FnMut(IterStateOrCorrupted) -> Result<bool>,
+		tables: &Tables,
+		source: &IndexTable,
+		older: &[&IndexTable],
+		start_chunk: u64,
+	) -> Result<bool> {
 		let total_chunks = source.id.total_chunks();
 
 		for c in start_chunk..total_chunks {
@@ -1627,10 +1658,8 @@ impl HashColumn {
 				if entry.is_empty() {
 					continue
 				}
-				let (size_tier, offset) = {
-					let address = entry.address(source.id.index_bits());
-					(address.size_tier(), address.offset())
-				};
+				let address = entry.address(source.id.index_bits());
+				let (size_tier, offset) = (address.size_tier(), address.offset());
 
 				let value = tables.value[size_tier as usize].get_with_meta(offset, log.overlays());
 				let (value, rc, pk, compressed) = match value {
@@ -1644,7 +1673,7 @@ impl HashColumn {
 							entry: *entry,
 							error: None,
 						}))? {
-							return Ok(())
+							return Ok(false)
 						}
 						continue
 					},
@@ -1661,13 +1690,23 @@ impl HashColumn {
 							entry: *entry,
 							error: Some(e),
 						}))? {
-							return Ok(())
+							return Ok(false)
 						}
 						continue
 					},
 				};
 				let mut key = source.recover_key_prefix(c, *entry);
 				key[6..].copy_from_slice(&pk);
+				let mut reported = false;
+				for table in older {
+					if Self::contains_partial_key_with_address(&key, address, table, log.overlays())? {
+						reported = true;
+						break
+					}
+				}
+				if reported {
+					continue
+				}
 				let value = if compressed { self.compression.decompress(&value)? } else { value };
 				log::debug!(
 					target: "parity-db",
@@ -1686,11 +1725,11 @@ impl HashColumn {
 					value,
 				});
 				if !f(state)? {
-					return Ok(())
+					return Ok(false)
 				}
 			}
 		}
-		Ok(())
+		Ok(true)
 	}
 
 	fn iter_index_fast(
